@@ -55,6 +55,15 @@ Theorem C18_negotiation_roundtrip :
 Proof. exact negotiation_roundtrip. Qed.
 Print Assumptions C18_negotiation_roundtrip.
 
+(* the round trip does not extend to the empty list: it is written as the
+   empty string, which reads as one item with an empty name and q = 1.0 *)
+Theorem C18_negotiation_roundtrip_empty_refuted :
+  forall (Q : Type) (float : list Z -> outcome Q) (str_q : Q -> list Z) (one : Q),
+    parse_negotiation Q float one (render_negotiation Q str_q [])
+    = Ok [([], one)].
+Proof. exact negotiation_empty. Qed.
+Print Assumptions C18_negotiation_roundtrip_empty_refuted.
+
 (* parse_negotiation returns a value for every string, provided float()
    raises nothing but ValueError (pair[0] always exists; IndexError and
    ValueError of the quality are caught) *)
